@@ -3,6 +3,7 @@
 Generates patching / ordering rulebook *texts* over the rule grammar (compiled by the real compilers), config
 pairs that instantiate the rules, and converts everything to the JSON the Lean driver understands."""
 import random
+import re
 from collections import OrderedDict as odict
 
 VENDORS = ["huawei", "cisco", "arista", "nexus", "routeros", "b4com"]
@@ -358,3 +359,68 @@ def gen_case(rng, logics=True, ignore=True, special=True, one_per_key=None, over
     else:
         new = mutate_cfg(rng, old, rtree, one_per_key=one_per_key)
     return dict(vendor=vendor, ptext=render(plines), otext=render(olines), old=old, new=new)
+
+
+# ------------------------------------------------------------------ reference: which lines does a rulebook text know
+class RefOutside(Exception):
+    """a rule row outside the reference grammar (c07.tokenize) was consulted"""
+
+
+def ref_rules(ptext):
+    """the rule text read by indentation only (4 blanks per level, as `render` writes it):
+    -> {"local": [rule], "global": [rule]} with rule = dict(row, ignore, local, global)"""
+    root = dict(local=[], **{"global": []})
+    stack = [(-1, root)]
+    for line in ptext.split("\n"):
+        if not line.strip():
+            continue
+        d = (len(line) - len(line.lstrip(" "))) // 4
+        text = line.strip()
+        row, _, ptxt = text.partition("  %")
+        row = row.strip()
+        ignore = row.startswith("!")
+        row = row.lstrip("!").strip()
+        params = dict((k, v if v else "1") for k, v in re.findall(r"(?:^|\s)%?(\w+)(?:=(\S+))?", ptxt))
+        is_global = params.get("global", "0").strip() not in ("0", "", "false", "False")
+        rule = dict(row=row, ignore=ignore, local=[], **{"global": []})
+        while stack[-1][0] >= d:
+            stack.pop()
+        stack[-1][1]["global" if is_global else "local"].append(rule)
+        stack.append((d, rule))
+    return root
+
+
+def ref_children(row, rules):
+    """the rule language's reading of `_match_row_to_rules`: None = no non-ignore rule knows the row (or an ignore
+    rule matches it); else the rules for its children (children of every matching local rule, inherited globals)"""
+    from harness.props import c07
+    hit = []
+    for is_glob, lst in ((False, rules["local"]), (True, rules["global"])):
+        for rule in lst:
+            m = c07.ref_match(rule["row"], row)
+            if m == "outside":
+                raise RefOutside(rule["row"])
+            if m is None:
+                continue
+            if rule["ignore"]:
+                return None
+            hit.append((is_glob, rule))
+    if not hit:
+        return None
+    out = dict(local=[], **{"global": []})
+    for is_glob, rule in hit:
+        if not is_glob:
+            out["local"] += rule["local"]
+            out["global"] += rule["global"]
+    out["global"] += rules["global"]
+    return out
+
+
+def ref_restricted(tree, rules):
+    """tree|R by the reference reading"""
+    out = []
+    for row, ch in tree:
+        cr = ref_children(row, rules)
+        if cr is not None:
+            out.append([row, ref_restricted(ch, cr)])
+    return out
